@@ -149,6 +149,7 @@ def check_C08(report, tier, seed):
     walks = S.run_strict_walks(seed, tier, 150, 5000)
     S.correspondence(report, walks, "C08")
     S.monitor_strict(report, walks, "C08")
+    S.due_timeout_family(report, "C08")
 
 
 def check_C19(report, tier, seed):
